@@ -17,6 +17,7 @@ import numpy
 from .. import compat  # noqa: F401
 from ..core import viol, adig
 from .. import rngseam, world
+from ..world import obj
 from ..snapshot import sdig
 
 from pybrops.breed.prot.mate.SelfCross import SelfCross
@@ -65,7 +66,7 @@ def generate(R, tier):
     mode = R.choice(["pass", "pass", "pass", "low", "high", "at"])
     script = [] if mode == "pass" else [{"method": "uniform", "mode": mode}]
     sc = {"world": {"seed": R.randrange(1 << 30), "ntaxa": nt, "nvrnt": nv, "nchr": nchr, "base": R.choice([0, 0, -128, 100]),
-                    "grouped": R.random() < 0.8, "xo_one": R.random() < 0.1},
+                    "grouped": R.random() < 0.8, "xo_one": R.random() < 0.1, "fullmeta": R.random() < 0.7},
           "rng": {"kind": R.choice(["Generator", "Generator", "RandomState"]), "seed": R.randrange(1 << 30), "script": script, "umode": mode}}
     steps = []
     if lowlevel:
@@ -167,6 +168,13 @@ def _founders(w):
     pg = world.pgmat(R, w["ntaxa"], w["nvrnt"], w["nchr"], provenance=True, grouped=w["grouped"])
     if w["base"]:
         pg.mat = (pg.mat.astype(int) + w["base"]).astype("int8")
+    if w.get("fullmeta", True):
+        # every per-marker field a genotype matrix can carry
+        nv = pg.nvrnt
+        pg.vrnt_hapgrp = numpy.array([R.randint(0, 3) for _ in range(nv)], dtype=int)
+        pg.vrnt_hapalt = obj([R.choice("ACGT") for _ in range(nv)])
+        pg.vrnt_hapref = obj([R.choice("ACGT") for _ in range(nv)])
+        pg.vrnt_mask = numpy.array([R.random() < 0.7 for _ in range(nv)], dtype=bool)
     if w.get("xo_one"):
         xo = pg.vrnt_xoprob.copy()
         xo[R.randrange(len(xo))] = 1.0
@@ -280,7 +288,7 @@ def _mate_step(sc, st, ix, pg, mp, pname, state, V, log, probes):
         return False
     state["pc"], state["fc"] = pc0 + total, fc0 + ncross
     # marker metadata carried over
-    for a in ("vrnt_chrgrp", "vrnt_phypos", "vrnt_name", "vrnt_genpos", "vrnt_xoprob", "vrnt_hapgrp", "vrnt_mask",
+    for a in ("vrnt_chrgrp", "vrnt_phypos", "vrnt_name", "vrnt_genpos", "vrnt_xoprob", "vrnt_hapgrp", "vrnt_hapalt", "vrnt_hapref", "vrnt_mask",
               "vrnt_chrgrp_name", "vrnt_chrgrp_stix", "vrnt_chrgrp_spix", "vrnt_chrgrp_len"):
         x, y = getattr(prog, a), getattr(pg, a)
         if (x is None) != (y is None) or (x is not None and adig(x) != adig(y)):
